@@ -25,6 +25,25 @@ let step _ cs os =
   match get_opt o "crash" with
   | Some c -> ["BAD\tside=impl\tclause=crash:" ^ c]
   | None ->
+  match get_opt f "tog" with
+  | Some _ ->
+    (* tog=<rounds> (driver-level clauses; the model has a fixed registration): broadcasts for tag "a" on an
+       async fleet while other tasks keep re-registering the nodes x<k>, alternating (tags [a], a port
+       that refuses connections) and (tags [b], server B) by remove_node + add_node of the same name; the
+       permanent nodes f<i> carry [a]. At every moment the nodes that carry "a" are the f nodes and the x
+       nodes registered at the refusing port; server B never hosts a node that carries "a".
+       "A broadcast addresses exactly the nodes carrying all requested tags": server B reads no broadcast
+       request (hitb counts the requests for the case's own method read by server B). "... and returns
+       exactly one result per addressed node": every returned map has an entry for every f node and no
+       key besides the f and x nodes (bad counts the maps that do not). *)
+    let num k = int_of_n (n_of_hex (get o k)) in
+    (if num "hitb" > 0 then
+       [Printf.sprintf "BAD\tside=impl\tclause=broadcast during re-registration: server B, which only ever hosts nodes without tag \"a\", read %d request(s) of broadcasts for tag \"a\" (first after round %s; \"addresses exactly the nodes carrying all requested tags\")" (num "hitb") (get o "first")]
+     else []) @
+    (if num "bad" > 0 then
+       [Printf.sprintf "BAD\tside=impl\tclause=broadcast during re-registration: %d result map(s) lack the entry of a permanent node carrying the tag or have a foreign key (\"exactly one result per addressed node\")" (num "bad")]
+     else [])
+  | None ->
   match get_opt f "tags" with
   | Some tags ->
     let nt = Stdlib.List.map (fun s -> n_of_int (int_of_string s)) (split_on '.' tags) in
@@ -35,9 +54,55 @@ let step _ cs os =
     let slow = (match get_opt f "slow" with Some s -> Some (Printf.sprintf "n%s" s) | None -> None) in
     let exp_results = if names = [] then "-" else String.concat "," (Stdlib.List.map (fun n -> if Some n = slow then n ^ "!" else n) names) in
     let exp_hit = if names = [] then "-" else String.concat "," (Stdlib.List.map (fun n -> n ^ "x1") names) in
-    if get o "results" <> exp_results || get o "hit" <> exp_hit then
-      ["BAD\tside=impl\tclause=broadcast targets: expected results=" ^ exp_results ^ " hit=" ^ exp_hit]
-    else []
+    (match get_opt f "satt" with
+     | None ->
+       if get o "results" <> exp_results || get o "hit" <> exp_hit then
+         ["BAD\tside=impl\tclause=broadcast targets: expected results=" ^ exp_results ^ " hit=" ^ exp_hit]
+       else []
+     | Some satt ->
+       (* satt=<n> sdelay=<ms> (harness-only switches): n attempts per node with a retry delay between them;
+          node slow=<i> reads every request and stays silent until the timeout, every other node replies
+          at once. "A broadcast addresses exactly the nodes carrying all requested tags and returns exactly
+          one result per addressed node": the result map is judged exactly as above (the silent node's
+          entry is its error). Requests seen by the nodes: a node that is not addressed sees none, an
+          answering node exactly one ("stops at the first reply"), the silent node at least one and at
+          most n ("makes at most the configured number of attempts"). *)
+       let satt = int_of_string satt in
+       let hit_ok =
+         let got = if get o "hit" = "-" then [] else split_on ',' (get o "hit") in
+         Stdlib.List.length got = Stdlib.List.length names &&
+         Stdlib.List.for_all2 (fun g n ->
+           if Some n = slow then Stdlib.List.exists (fun k -> g = Printf.sprintf "%sx%d" n k) (Stdlib.List.init satt (fun k -> k + 1))
+           else g = n ^ "x1") got names in
+       if get o "results" <> exp_results || not hit_ok then
+         ["BAD\tside=impl\tclause=broadcast targets (silent node, " ^ string_of_int satt ^ " attempts, retry delay): expected results=" ^ exp_results ^ " hit=" ^ (if names = [] then "-" else String.concat "," (Stdlib.List.map (fun n -> if Some n = slow then Printf.sprintf "%sx1..x%d" n satt else n ^ "x1") names))]
+       else [])
+  | None ->
+  match get_opt f "hc" with
+  | Some _ ->
+    (* hc=1 (driver-level clauses; the model has no health checks): caller B's request is in flight on the
+       node's cached connection while a health check of the fleet fails (the node answers the probed
+       endpoint with MethodNotFound). A health check is not one of B's per-attempt outcomes: the node's
+       only outcome for B's request is a reply, written after the health check has returned, on the
+       connection the request came on, while B's own deadline is still far away (ready=1 is the
+       harness's record of that; otherwise the case is not judged). B's outcome sequence is [success]. *)
+    if get o "ready" <> "1" then [] else begin
+      let num k = int_of_n (n_of_hex (get o k)) in
+      let out = ref [] in
+      let bad c = out := ("BAD\tside=impl\tclause=" ^ c) :: !out in
+      (* "stops at the first reply, success or application error, and reports that reply" *)
+      if get o "res" <> "value" then
+        bad ("health check failing during a call: the node answered caller B in time but B reports " ^ get o "res" ^ " (\"stops at the first reply ... and reports that reply\")");
+      (* "retries only after transport-level failures": B's only attempt met a reply, so there is exactly
+         one attempt and the node sees B's request exactly once *)
+      if num "att" <> 1 || num "slow" <> 1 then
+        bad (Printf.sprintf "health check failing during a call: caller B's request was answered in time, yet B made %d attempts and the node saw the request %d times (\"retries only after transport-level failures\")" (num "att") (num "slow"));
+      (* the node was reachable and answering throughout: "a later attempt or call reconnects and succeeds
+         once the node is reachable again" (within two calls, as in ok_C19) *)
+      if not (Stdlib.List.mem "value" (split_on ',' (get o "follow"))) then
+        bad "health check failing during a call: neither of the two calls afterwards succeeds (node wedged)";
+      !out
+    end
   | None ->
   match get_opt f "duo" with
   | Some _ ->
